@@ -278,6 +278,10 @@ func VerifyAddressKey(ip netip.Addr, digestAlg crop.Hash, keyType crop.KeyPairTy
 		return errors.New("key type too long")
 	case len(pubKeyData) > 0xFFFF:
 		return errors.New("key too long")
+	case !keyType.IsValid():
+		return errors.New("key type not supported")
+	case keyType == crop.KeyPairTypeEd25519 && len(pubKeyData) != ed25519.PublicKeySize:
+		return errors.New("key has invalid size")
 	}
 
 	// Make comparison.
